@@ -77,9 +77,13 @@ package cbreaker
 
 //@ functype cbreaker.toInt
 //@   params c
+//@   holds CircuitBreaker.m
+//@   modifies everything
 //@   ensures deterministic: result == ival(self, c)
 //@ functype cbreaker.toFloat64
 //@   params c
+//@   holds CircuitBreaker.m
+//@   modifies everything
 //@   ensures deterministic: result == fval(self, c)
 
 //@ func (*CircuitBreaker).isStandby
@@ -204,26 +208,32 @@ package cbreaker
 
 //@ func intEQ$1
 //@   props C18
+//@   holds CircuitBreaker.m
 //@   modifies everything
 //@   ensures compares: result <==> ival(m, c) == value
 //@ func intLT$1
 //@   props C18
+//@   holds CircuitBreaker.m
 //@   modifies everything
 //@   ensures compares: result <==> ival(m, c) < value
 //@ func intGT$1
 //@   props C18
+//@   holds CircuitBreaker.m
 //@   modifies everything
 //@   ensures compares: result <==> ival(m, c) > value
 //@ func float64EQ$1
 //@   props C18
+//@   holds CircuitBreaker.m
 //@   modifies everything
 //@   ensures compares: result <==> fval(m, c) == value
 //@ func float64LT$1
 //@   props C18
+//@   holds CircuitBreaker.m
 //@   modifies everything
 //@   ensures compares: result <==> fval(m, c) < value
 //@ func float64GT$1
 //@   props C18
+//@   holds CircuitBreaker.m
 //@   modifies everything
 //@   ensures compares: result <==> fval(m, c) > value
 
@@ -251,3 +261,31 @@ package cbreaker
 //@   props C18
 //@   modifies everything
 //@   ensures built_from_gt_and_eq: result1 == nil ==> calls(gt) == 1 && calls(eq) == 1 && callarg(gt, 0, 0) == m && callarg(eq, 0, 0) == m && callarg(gt, 0, 1) == value && callarg(eq, 0, 1) == value
+
+// ---- C09: String() is called by loggers; it reads guarded state ---------------------------------------
+//@ func (*CircuitBreaker).String
+//@   props C09
+//@   holds c.m
+//@ func (*ratioController).String
+//@   props C09
+//@   holds CircuitBreaker.m
+//@   assume clock_stable
+//@   requires r != nil && r.duration > 0 && r.allowed >= 0 && r.denied >= 0
+
+//@ func latencyAtQuantile$1
+//@   props C09 C18
+//@   holds CircuitBreaker.m
+//@   requires c != nil && c.metrics != nil
+//@   modifies everything
+//@ func networkErrorRatio$1
+//@   props C09 C18
+//@   holds CircuitBreaker.m
+//@   requires c != nil && c.metrics != nil
+//@   modifies everything
+//@   ensures calls(NetworkErrorRatio) == 1 && result == callres(NetworkErrorRatio, 0, 0)
+//@ func responseCodeRatio$1
+//@   props C09 C18
+//@   holds CircuitBreaker.m
+//@   requires c != nil && c.metrics != nil
+//@   modifies everything
+//@   ensures calls(ResponseCodeRatio) == 1 && result == callres(ResponseCodeRatio, 0, 0) && callarg(ResponseCodeRatio, 0, 1) == startA && callarg(ResponseCodeRatio, 0, 2) == endA && callarg(ResponseCodeRatio, 0, 3) == startB && callarg(ResponseCodeRatio, 0, 4) == endB
